@@ -196,7 +196,10 @@ func (r *Run) Watchdog(harness, disc, what string, c any, fn func()) {
 	go func() {
 		select {
 		case <-done:
-		case <-time.After(90 * time.Second):
+		case <-time.After(20 * time.Minute):
+			// A verdict that depends on the wall clock must not fire on a loaded machine: a zstd frame with a forged
+			// window size takes 0.5 s alone and took more than 90 s with 16 workers and other jobs running (DESIGN §6).
+			// Twenty minutes of one call on a few bytes is a hang on any machine this runs on.
 			r.Fail(harness, disc, what, c)
 			r.NotExhaustive("aborted after a hung call")
 			r.Finish()
